@@ -114,7 +114,18 @@ EncStrLoop(s, i, start) ==
             IF r.r = RuneError /\ r.size = 1
             THEN SubSeq(s, start, i - 1) \o EscFFFD \o EncStrLoop(s, i + 1, i + 1)
             ELSE EncStrLoop(s, i + r.size, start)      \* well-formed multi-byte character (U+FFFD itself included): verbatim
-EncString(s) == <<Quote>> \o EncStrLoop(s, 1, 1) \o <<Quote>>
+EncStringScan(s) == <<Quote>> \o EncStrLoop(s, 1, 1) \o <<Quote>>
+\* the same text position by position (see Utf8.tla, Covered), for long strings; MCEncoder.tla checks the equality
+EncStringFast(s) ==
+  <<Quote>>
+    \o CatR([i \in 1..Len(s) |->
+               LET b == s[i] IN
+               IF b < 128 THEN (IF PlainAscii(b) THEN <<b>> ELSE EscapeByte(b))
+               ELSE IF Covered(s, i) THEN <<>>
+               ELSE LET r == DecodeRune(s, i) IN IF r.r = RuneError /\ r.size = 1 THEN EscFFFD ELSE SubSeq(s, i, i + r.size - 1)],
+            1, Len(s))
+    \o <<Quote>>
+EncString(s) == IF Len(s) <= 48 THEN EncStringScan(s) ELSE EncStringFast(s)
 
 \* ---------------------------------------------------------------------------
 \* encoder.go: encodeFloat64 (identical copy in cli/encoder.go)
@@ -259,12 +270,35 @@ SgrEnd(s, i) ==       \* i is just after "ESC ["; position of the closing 'm' or
   ELSE IF IsDigit(s[i]) \/ s[i] = 59 THEN SgrEnd(s, i + 1)
   ELSE 0
 RECURSIVE StripSGRFrom(_, _, _)
-StripSGRFrom(s, i, start) ==     \* same two-cursor shape as the string encoder, to stay linear
+StripSGRFrom(s, i, start) ==     \* left-to-right scan (same two-cursor shape as the string encoder)
   IF i > Len(s) THEN <<SubSeq(s, start, Len(s))>>
   ELSE IF s[i] = ESC /\ i < Len(s) /\ s[i + 1] = 91 /\ SgrEnd(s, i + 2) # 0
        THEN LET e == SgrEnd(s, i + 2) IN <<SubSeq(s, start, i - 1)>> \o StripSGRFrom(s, e + 1, e + 1)
        ELSE StripSGRFrom(s, i + 1, start)
-StripSGR(s) == Flat(StripSGRFrom(s, 1, 1))
+StripSGRScan(s) == Flat(StripSGRFrom(s, 1, 1))
+\* The same function without a recursion as deep as the text is long (TLC: deep recursion makes every garbage
+\* collection scan the whole stack, i.e. quadratic time on 64 KiB outputs): a byte is removed iff it lies inside
+\* an occurrence of ESC [ params m - occurrences cannot overlap, since they contain no ESC but the first byte.
+\* MCEncoder.tla checks StripSGR = StripSGRScan on every coloured text of the universe.
+IsParam(b) == IsDigit(b) \/ b = 59
+RECURSIVE ParamRunStart(_, _)
+ParamRunStart(s, i) == IF i >= 1 /\ IsParam(s[i]) THEN ParamRunStart(s, i - 1) ELSE i + 1       \* start of the run of params ending at i
+RECURSIVE ParamRunEnd(_, _)
+ParamRunEnd(s, i) == IF i <= Len(s) /\ IsParam(s[i]) THEN ParamRunEnd(s, i + 1) ELSE i - 1      \* end of the run of params starting at i
+SgrStartsAt(s, i) == s[i] = ESC /\ i + 1 <= Len(s) /\ s[i + 1] = 91
+                       /\ LET e == ParamRunEnd(s, i + 2) + 1 IN e <= Len(s) /\ s[e] = 109
+InSgr(s, i) ==
+  LET b == s[i] IN
+  CASE b = ESC -> SgrStartsAt(s, i)
+    [] b = 91 -> i > 1 /\ s[i - 1] = ESC /\ SgrStartsAt(s, i - 1)
+    [] IsParam(b) \/ b = 109 -> LET st == ParamRunStart(s, i - 1) IN st >= 3 /\ s[st - 1] = 91 /\ s[st - 2] = ESC /\ SgrStartsAt(s, st - 2)
+    [] OTHER -> FALSE
+RECURSIVE KeepR(_, _, _)
+KeepR(s, lo, hi) ==      \* balanced: recursion depth log2(Len(s))
+  IF lo > hi THEN <<>>
+  ELSE IF hi - lo < 16 THEN SelectSeq([k \in 1..(hi - lo + 1) |-> IF InSgr(s, lo + k - 1) THEN -1 ELSE s[lo + k - 1]], LAMBDA b : b >= 0)
+  ELSE LET m == (lo + hi) \div 2 IN KeepR(s, lo, m) \o KeepR(s, m + 1, hi)
+StripSGR(s) == KeepR(s, 1, Len(s))
 
 \* ---------------------------------------------------------------------------
 \* cli/cli.go: createMarshaler.  Flags -> encoder configuration.
@@ -372,6 +406,19 @@ NumberEnd(s, i) ==      \* position after the number starting at i, or 0
       expOk == ~hasExp \/ p4 > p3
   IN IF intOk /\ fracOk /\ expOk THEN p4 ELSE 0
 
+\* The wider number syntax of YAML's core schema that the command's --yaml-input hands through as a literal
+\* (deviation switch of finding F-C12-yaml-number-literal): sign +, leading zeros, no digit before or after the point.
+NumberEndYaml(s, i) ==
+  LET p0 == IF i <= Len(s) /\ s[i] \in {Minus, Plus} THEN i + 1 ELSE i
+      p1 == TakeDigits(s, p0)
+      hasDot == p1 <= Len(s) /\ s[p1] = Dot
+      p2 == IF hasDot THEN TakeDigits(s, p1 + 1) ELSE p1
+      digits == (p1 - p0) + (IF hasDot THEN p2 - p1 - 1 ELSE 0)
+      hasExp == p2 <= Len(s) /\ s[p2] \in {101, 69}
+      p3 == IF hasExp /\ p2 + 1 <= Len(s) /\ s[p2 + 1] \in {Plus, Minus} THEN p2 + 2 ELSE p2 + 1
+      p4 == IF hasExp THEN TakeDigits(s, p3) ELSE p2
+  IN IF digits > 0 /\ (~hasExp \/ p4 > p3) THEN p4 ELSE 0
+
 HexVal(b) == CASE IsDigit(b) -> b - 48
                [] b >= 97 /\ b <= 102 -> b - 87
                [] b >= 65 /\ b <= 70 -> b - 55
@@ -412,8 +459,9 @@ PutPair(o, k, v) ==
   IF p <= Len(o) /\ o[p][1] = k THEN [o EXCEPT ![p] = <<k, v>>]
   ELSE SubSeq(o, 1, p - 1) \o << <<k, v>> >> \o SubSeq(o, p, Len(o))
 
-RECURSIVE ReadValue(_, _)
-ReadValue(s, i0) ==
+RECURSIVE ReadValue(_, _, _)
+\* yamlNums: FALSE = JSON; TRUE = numbers in the wider syntax above are accepted too (classification only)
+ReadValue(s, i0, yamlNums) ==
   LET i == SkipWs(s, i0) IN
   IF i > Len(s) THEN Fail
   ELSE LET b == s[i] IN
@@ -422,12 +470,12 @@ ReadValue(s, i0) ==
       [] b = 102 -> IF HasAt(s, i, FalseBytes) THEN [ok |-> TRUE, v |-> VBool(FALSE), next |-> i + 5] ELSE Fail
       [] b = Quote -> LET r == ReadStrFrom(s, i + 1, <<>>) IN
                       IF r.ok THEN [ok |-> TRUE, v |-> VStr(r.b), next |-> r.next] ELSE Fail
-      [] b = Minus \/ IsDigit(b) -> LET e == NumberEnd(s, i) IN
+      [] b = Minus \/ IsDigit(b) \/ (yamlNums /\ b \in {Plus, Dot}) -> LET e == IF yamlNums THEN NumberEndYaml(s, i) ELSE NumberEnd(s, i) IN
                       IF e = 0 THEN Fail ELSE [ok |-> TRUE, v |-> VLit(SubSeq(s, i, e - 1)), next |-> e]
       [] b = LBrack ->
            LET RECURSIVE Elems(_, _)
                Elems(j, acc) ==      \* j: at the start of an element
-                 LET r == ReadValue(s, j) IN
+                 LET r == ReadValue(s, j, yamlNums) IN
                  IF ~r.ok THEN Fail
                  ELSE LET k == SkipWs(s, r.next) IN
                       IF k > Len(s) THEN Fail
@@ -445,7 +493,7 @@ ReadValue(s, i0) ==
                       IF ~ks.ok THEN Fail
                       ELSE LET c == SkipWs(s, ks.next) IN
                            IF c > Len(s) \/ s[c] # Colon THEN Fail
-                           ELSE LET r == ReadValue(s, c + 1) IN
+                           ELSE LET r == ReadValue(s, c + 1, yamlNums) IN
                                 IF ~r.ok THEN Fail
                                 ELSE LET k == SkipWs(s, r.next)
                                          acc1 == PutPair(acc, ks.b, r.v)
@@ -458,15 +506,17 @@ ReadValue(s, i0) ==
       [] OTHER -> Fail
 
 \* one JSON text, optionally surrounded by white space
-Dec(s) == LET r == ReadValue(s, 1) IN
+Dec(s) == LET r == ReadValue(s, 1, FALSE) IN
           IF r.ok /\ SkipWs(s, r.next) = Len(s) + 1 THEN [ok |-> TRUE, v |-> r.v] ELSE Fail
 \* a stream of JSON texts (what the command prints for several outputs)
-RECURSIVE DecStreamFrom(_, _, _)
-DecStreamFrom(s, i0, acc) ==
+RECURSIVE DecStreamFrom(_, _, _, _)
+DecStreamFrom(s, i0, acc, yamlNums) ==
   LET i == SkipWs(s, i0) IN
   IF i > Len(s) THEN [ok |-> TRUE, vs |-> acc]
-  ELSE LET r == ReadValue(s, i) IN IF r.ok THEN DecStreamFrom(s, r.next, Append(acc, r.v)) ELSE [ok |-> FALSE, vs |-> acc]
-DecStream(s) == DecStreamFrom(s, 1, <<>>)
+  ELSE LET r == ReadValue(s, i, yamlNums) IN
+       IF r.ok THEN DecStreamFrom(s, r.next, Append(acc, r.v), yamlNums) ELSE [ok |-> FALSE, vs |-> acc]
+DecStream(s) == DecStreamFrom(s, 1, <<>>, FALSE)
+DecStreamYamlNums(s) == DecStreamFrom(s, 1, <<>>, TRUE)
 
 \* ---------------------------------------------------------------------------
 \* What reading back must give: Norm(v).  NaN -> null, infinities saturate (inside FloatBytes), every
